@@ -67,6 +67,12 @@ struct Failure {
   std::string cas;   // case string accepted by --case
 };
 
+// Cases of the code under test that do not finish within their per-case time limit (see contained() below) are findings
+// ("hang"), but a systematic hang must not eat the whole shard: after hang_limit() of them the remaining cases of all
+// contained() calls of this process are skipped, counted, and reported as a cap of the run.
+inline int &hang_limit() { static int v = 12; return v; }
+inline long long &hangs() { static long long v = 0; return v; }
+inline long long &skipped_after_hangs() { static long long v = 0; return v; }
 struct Report {
   std::string property, part, tier = "quick";
   std::string rule;
@@ -107,6 +113,9 @@ struct Report {
     if ((size_t)n <= max_fail_per_key) failures.push_back({key, what, cas});
   }
   bool write(const std::string &path) const {
+    if (skipped_after_hangs() > 0)
+      const_cast<Report *>(this)->cap("enumeration stopped after " + std::to_string(hangs()) + " cases that did not finish within their time limit; " +
+                                      std::to_string(skipped_after_hangs()) + " cases of this shard were not evaluated");
     FILE *f = fopen(path.c_str(), "w");
     if (!f) return false;
     fprintf(f, "{\n \"property\":\"%s\",\"part\":\"%s\",\"tier\":\"%s\",\n", jesc(property).c_str(),
@@ -238,6 +247,7 @@ struct Outcome {
 template <class F, class G>
 void contained(long long lo, long long hi, F fn, G on_result, int per_case_timeout_s = 120) {
   long long next_i = lo;
+  if (hangs() >= hang_limit()) { skipped_after_hangs() += hi - lo; return; }
   while (next_i < hi) {
     int fd[2];
     if (pipe(fd) != 0) { perror("pipe"); exit(2); }
@@ -298,6 +308,7 @@ void contained(long long lo, long long hi, F fn, G on_result, int per_case_timeo
     o.what = b;
     on_result(bad, o);
     next_i = bad + 1;
+    if (WIFSIGNALED(st) && WTERMSIG(st) == SIGALRM && ++hangs() >= hang_limit()) { skipped_after_hangs() += hi - next_i; return; }
   }
 }
 }  // namespace bsx
